@@ -641,7 +641,7 @@ type Output struct {
 
 func main() {
 	if len(os.Args) < 3 {
-		fail("usage: keyshapes <repo> lean|json [annotations.json]")
+		fail("usage: keyshapes <repo> lean|json|donetx|genesisguards [annotations.json]")
 	}
 	repo, _ := filepath.Abs(os.Args[1])
 	mode := os.Args[2]
@@ -765,6 +765,15 @@ func main() {
 				return true
 			})
 		}
+	}
+
+	if mode == "donetx" {
+		doneTx(a, tinfos)
+		return
+	}
+	if mode == "genesisguards" {
+		genesisGuards(a, tinfos)
+		return
 	}
 
 	// 1. every ConcatKey call
